@@ -271,8 +271,10 @@ class Builtin2Mixin:
         st.A = st.A + 1
         cid = smt.fresh('ucls', smt.Int)
         st.CL = z3.Store(st.CL, r, cid)
-        st.assume(self.is_subclass_term(cid, self.cls('Exception')))
-        return SV(ref(r), 'ref', self.cls('Exception'))
+        base = 'BaseException' if self.config.get('user_raises_base_exception') else 'Exception'
+        # (units that must stay correct when the called code is aborted by KeyboardInterrupt / CancelledError / SystemExit opt in)
+        st.assume(self.is_subclass_term(cid, self.cls(base)))
+        return SV(ref(r), 'ref', self.cls(base))
 
     def record_user_call(self, st: St, fterm, args: Args):
         ev = self.alloc(st, self.cls('UserCallEvent'))
